@@ -146,8 +146,9 @@ def threaded_family(rep, tier, rng):
                       "knobs": {"table_chunk_capacity": 4}, "steps": steps, "timeout": 60})
     # result back-pressure: many partitions blocked on the single-slot result stream and woken by the consumer while they are
     # returning Pending - the wake-while-running transitions of the task state machine, thousands of times per statement
-    for j in range(3 if tier == "quick" else 20):
-        nrows = rng.choice([60000, 150000])
+    nsmall = len(cases)
+    for j in range(3 if tier == "quick" else 12):
+        nrows = rng.choice([60000, 100000])
         bs = rng.choice([32, 64])
         steps = [{"sql": "CREATE TEMP TABLE big (a INT)"}, {"sql": f"INSERT INTO big SELECT * FROM generate_series(1, {nrows})"},
                  {"sql": f"SET partitions = {rng.choice([8, 16])}"}, {"sql": f"SET batch_size = {bs}"}]
@@ -156,7 +157,9 @@ def threaded_family(rep, tier, rng):
         # table chunks no larger than the batch size (the engine's behaviour otherwise is the recorded finding KF-BATCH-LT-CHUNK)
         cases.append({"id": len(cases), "rt": {"kind": "threaded", "threads": 16}, "events": True, "knobs": {"table_chunk_capacity": bs},
                       "steps": steps, "timeout": 180})
-    res = vlib.Driver(nworkers=6, case_timeout=180, mem_gb=4).run(cases)
+    # the back-pressure sessions record hundreds of thousands of events each: fresh worker processes with a larger memory cap
+    res = vlib.Driver(nworkers=6, case_timeout=180, mem_gb=4).run(cases[:nsmall]) + \
+        vlib.Driver(nworkers=3, case_timeout=300, mem_gb=10).run(cases[nsmall:])
     task_traces, hj_lines, ha_lines, sm_lines, nstmts, all_events = [], [], [], [], 0, []
     for c, r in zip(cases, res):
         rep.cov["evaluations"] += 1
